@@ -63,5 +63,10 @@ CHECKS = {
    text='For ldx/st/stx/xadd/ldabs/ldind x 4 widths x offset classes: on every CLIF path, each load/store/atomic_rmw lies wholly inside the stack slot, packet or metadata buffer (no wrap), and a bounds-check trap fires only if the access it guards is not wholly inside a region; '
         'base register, region bases and lengths (incl. empty/absent) are symbolic.',
    note='Trusted: Cranelift lowering of trapz and of the accesses; CLIF semantics table; z3. Distinct buffers do not overlap.'),
+ 'C07': dict(level='model_checking', engine='mirsym+x86sym', design_ref='DESIGN.md 5/C07',
+   technique='symbolic execution of the MIR of the interpreter CALL/EXIT arms from an arbitrary frame state + z3 (call/exit semantics, frame lemma for every opcode, pairing lemma); whole-program translation validation of the JIT on a local-call family',
+   text='Interpreter: for call (src=1) and exit from an arbitrary state (depth 0..8, any displacement, any Option<u16> frame size per function entry) z3 shows saved r6-r9/return address, r10 lowered by the frame size, r0-r9 untouched, target pc+1+imm without overflow, '
+        'Err at depth 8, restore on exit; every opcode leaves the frames of suspended callers untouched; the pairing lemma gives r6-r10 restored across call/return. JIT: 7 call-graph programs compared with the interpreter for all inputs (x86sym).',
+   note=INTERP_NOTE + ' JIT depth > 8 and custom frame sizes are outside the claim. Two known findings (frame pointer not lowered by the JIT).'),
 }
 NOT_APPLICABLE = {}
